@@ -19,10 +19,13 @@ def support_record(rid, s, unit, R, tw, d_local, coll, cname, exact, dscale=1.0,
     k = S.isqrt_exact(rad) if exact else None
     closed = bool(exact and k is not None)
     rec = {"id": rid, "kind": "support", "tier": tier, "cls": cname, "via": "support_function",
-           "shape": {kk: v for kk, v in s.items() if kk != "name"},
+           "shape": ({kk: v for kk, v in s.items() if kk != "name"} if not isinstance(s.get("V"), np.ndarray)
+                     else {"kind": "hull", "V": [[0, 0, 0]], "big": s["name"]}),
            "d": [int(x) for x in d_local] if exact else [0, 0, 0], "k": int(k) if closed else 0, "closed": closed,
            "recon": False, "pn": [0, 0, 0], "pd": 1, "rticks": 0, "hn": 0, "hd": 1,
            "memticks": 0, "extticks": 0, "exc": "none"}
+    if not exact:
+        rec["dbg"] = {"dw": [float(x) for x in dw], "unit": unit, "R": R.tolist(), "tw": [float(x) for x in tw]}
     try:
         pw = np.asarray(coll.support_function(dw), dtype=float)
         if margin:
@@ -72,6 +75,137 @@ def point_record(rid, s, unit, R, tw, coll, cname, via, tier=1):
     return rec
 
 
+# the meshes of specs/shapes/MeshMC.tla (1-based triangles there)
+MODEL_MESHES = {
+    "cube": (S.CUBE_V, [(1,2,4),(1,4,3),(5,7,8),(5,8,6),(1,5,6),(1,6,2),(3,4,8),(3,8,7),(1,3,7),(1,7,5),(2,6,8),(2,8,4)]),
+    "octa": ([[2,0,0],[-2,0,0],[0,2,0],[0,-2,0],[0,0,2],[0,0,-2]],
+             [(1,3,5),(3,2,5),(2,4,5),(4,1,5),(3,1,6),(2,3,6),(4,2,6),(1,4,6)]),
+    "needle": ([[0,0,0],[8,0,0],[4,1,0],[4,0,1]], [(1,2,3),(1,2,4),(1,3,4),(2,3,4)]),
+    "drum": ([[4,0,-1],[2,3,-1],[-2,3,-1],[-4,0,-1],[-2,-3,-1],[2,-3,-1],[4,0,1],[2,3,1],[-2,3,1],[-4,0,1],[-2,-3,1],[2,-3,1]],
+             [(1,2,8),(1,8,7),(2,3,9),(2,9,8),(3,4,10),(3,10,9),(4,5,11),(4,11,10),(5,6,12),(5,12,11),(6,1,7),(6,7,12),
+              (1,2,3),(1,3,4),(1,4,5),(1,5,6),(7,8,9),(7,9,10),(7,10,11),(7,11,12)]),
+}
+
+
+def mesh_histories(tier, rng, recs, n0):
+    """MeshGraph histories: the behaviours of specs/shapes/MeshClimb.tla (sequences of lattice direction
+    queries on one object) plus pose updates between queries, incl. the same direction asked again."""
+    from distance3d import colliders as C
+    n = n0
+    L2 = [d for d in itertools.product(range(-2, 3), repeat=3) if any(d)]
+    npairs = 60 if tier == "quick" else 600
+    for name, (V, T) in MODEL_MESHES.items():
+        s = {"kind": "hull", "V": V, "name": name}
+        tri = np.array([[a - 1, b - 1, c - 1] for a, b, c in T], dtype=int)
+        for _ in range(npairs):
+            unit = rng.choice((1.0, 0.25, 3.0))
+            (M1, N1), (M2, N2) = rng.choice(S.ROTS), rng.choice(S.ROTS)
+            R1, R2 = np.array(M1, dtype=float) / N1, np.array(M2, dtype=float) / N2
+            t1 = unit * np.array([rng.randint(-4, 4) for _ in range(3)], dtype=float)
+            t2 = unit * np.array([rng.randint(-4, 4) for _ in range(3)], dtype=float)
+            P1, P2 = np.eye(4), np.eye(4)
+            P1[:3, :3], P1[:3, 3], P2[:3, :3], P2[:3, 3] = R1, t1, R2, t2
+            mesh = C.MeshGraph(np.ascontiguousarray(P1), np.ascontiguousarray(np.array(V, dtype=float) * unit), tri)
+            d1, d2 = rng.choice(L2), rng.choice(L2)
+            dw = np.ascontiguousarray(R1 @ np.array(d1, dtype=float))
+            seq = rng.choice(("qq", "qsame", "q-upd-same", "q-upd-q", "q-q-upd-same"))
+            for op in seq.split("-") if "-" in seq else [seq]:
+                pass
+            # first query at pose 1 (also judged)
+            n += 1; recs.append(support_record(f"s{n}", s, unit, R1, t1, d1, mesh, "MeshGraph", True))
+            if seq == "qq":
+                n += 1; recs.append(support_record(f"s{n}", s, unit, R1, t1, d2, mesh, "MeshGraph", True))
+            elif seq == "qsame":
+                n += 1; recs.append(support_record(f"s{n}", s, unit, R1, t1, d1, mesh, "MeshGraph", True))
+            else:
+                if seq == "q-q-upd-same":
+                    n += 1; recs.append(support_record(f"s{n}", s, unit, R1, t1, d2, mesh, "MeshGraph", True))
+                    dw = np.ascontiguousarray(R1 @ np.array(d2, dtype=float))
+                mesh.update_pose(np.ascontiguousarray(P2))
+                if seq == "q-upd-q":
+                    n += 1; recs.append(support_record(f"s{n}", s, unit, R2, t2, d2, mesh, "MeshGraph", True))
+                else:
+                    # the SAME world direction as the previous query, now at pose 2: judged in pose 2's local frame
+                    dl2 = R2.T @ dw
+                    n += 1; recs.append(support_record(f"s{n}", s, unit, R2, t2, dl2, mesh, "MeshGraph", False, tier=2))
+    # large meshes: long walks; antipodal and nearby direction sequences on one object
+    nbig = 4 if tier == "quick" else 12
+    for b in range(nbig):
+        if b % 2 == 0:
+            npts = rng.choice((400, 1500, 5000)) if tier == "quick" else rng.choice((400, 1500, 6000, 12000))
+            pts = np.array([[rng.gauss(0, 1) for _ in range(3)] for _ in range(npts)])
+            pts /= np.linalg.norm(pts, axis=1)[:, None]
+            pts *= np.array([rng.choice((1.0, 6.0)), 1.0, rng.choice((1.0, 0.3))])
+        else:
+            # ringed spindle: strictly convex, graph diameter ~ number of rings (long hill-climbing walks)
+            rings, per = rng.choice((60, 150, 300)), rng.choice((3, 6))
+            hl, rad = rng.choice((5.0, 10.0, 40.0)), rng.choice((0.5, 1.0))
+            pl = [[0.0, 0.0, -hl], [0.0, 0.0, hl]]
+            for kk in range(1, rings + 1):
+                z = -hl + 2.0 * hl * kk / (rings + 1)
+                rr = rad * math.sqrt(1.0 - (z / hl) ** 2)
+                for j in range(per):
+                    a = 2.0 * math.pi * (j + 0.5 * (kk % 2)) / per
+                    pl.append([rr * math.cos(a), rr * math.sin(a), z])
+            pts = np.array(pl)[:, rng.choice(([0, 1, 2], [2, 0, 1], [1, 2, 0]))]
+        from distance3d.mesh import make_convex_mesh
+        tri = make_convex_mesh(pts)
+        used = np.unique(tri)
+        remap = -np.ones(len(pts), dtype=int); remap[used] = np.arange(len(used))
+        Vb = np.ascontiguousarray(pts[used]); tri = remap[tri]
+        s = {"kind": "hull", "V": Vb, "name": f"big{b}"}
+        R = S.random_rotation(rng); tw = np.array([rng.uniform(-5, 5) for _ in range(3)])
+        T = np.eye(4); T[:3, :3] = R; T[:3, 3] = tw
+        mesh = C.MeshGraph(np.ascontiguousarray(T), Vb, tri)
+        d = np.array([rng.gauss(0, 1) for _ in range(3)])
+        for q in range(30 if tier == "quick" else 100):
+            mode = rng.choice(("anti", "near", "rand", "axis"))
+            if mode == "anti":
+                d = -d
+            elif mode == "near":
+                d = d + 0.05 * np.array([rng.gauss(0, 1) for _ in range(3)])
+            elif mode == "axis":
+                d = R @ (np.eye(3)[rng.randrange(3)] * rng.choice((-1, 1))) + 0.02 * np.array([rng.gauss(0, 1) for _ in range(3)]) * rng.choice((0, 1))
+            else:
+                d = np.array([rng.gauss(0, 1) for _ in range(3)])
+            n += 1
+            recs.append(support_record(f"s{n}", {"kind": "hull", "V": Vb, "name": s["name"]}, 1.0, R, tw, R.T @ d, mesh,
+                                       "MeshGraph", False, tier=3))
+    return n
+
+
+def special_directions(tier, rng, recs, n0):
+    """directions of tiny norm (GJK passes the current closest-point vector, down to ~1e-10) and directions
+    almost but not exactly parallel / orthogonal to the shape axis"""
+    n = n0
+    for s in S.catalogue():
+        for _ in range(2 if tier == "quick" else 8):
+            R = S.random_rotation(rng) if rng.random() < 0.7 else np.array(rng.choice(S.ROTS)[0], dtype=float) / 1.0
+            if abs(np.linalg.det(R) - 1) > 1e-9:
+                M, N = rng.choice(S.ROTS); R = np.array(M, dtype=float) / N
+            fs = S.feature_size(s)
+            unit = 10 ** rng.uniform(math.log10(2e-2), math.log10(100.0 / fs))
+            tw = np.array([rng.uniform(-1, 1) for _ in range(3)]) * rng.choice((0.0, 1.0, 50.0))
+            for cname, coll in S.build(s, unit, R, tw).items():
+                for _ in range(6):
+                    ax = np.eye(3)[rng.randrange(3)] * rng.choice((-1, 1))
+                    perp = np.cross(ax, np.array([rng.gauss(0, 1) for _ in range(3)]))
+                    perp /= np.linalg.norm(perp)
+                    kind = rng.choice(("nearaxis", "nearperp", "tiny", "tinyaxis"))
+                    eps = 10 ** rng.uniform(-13, -5)
+                    if kind == "nearaxis":
+                        d, sc = ax + eps * perp, 1.0
+                    elif kind == "nearperp":
+                        d, sc = perp + eps * ax, 1.0
+                    elif kind == "tiny":
+                        d, sc = np.array([rng.gauss(0, 1) for _ in range(3)]), 10 ** rng.uniform(-12, -7)
+                    else:
+                        d, sc = ax + eps * perp, 10 ** rng.uniform(-10, -6)
+                    n += 1
+                    recs.append(support_record(f"s{n}", s, unit, R, tw, d, coll, cname, False, dscale=sc, tier=3))
+    return n
+
+
 def gen(tier, seed):
     from distance3d import colliders as C
     rng = random.Random(seed)
@@ -109,6 +243,8 @@ def gen(tier, seed):
                         continue
                     n += 1
                     recs.append(support_record(f"s{n}", s, unit, R, tw, d, mc, "Margin(" + cname + ")", True, margin=m))
+    n = mesh_histories(tier, rng, recs, n)
+    n = special_directions(tier, rng, recs, n)
     # float tiers: random poses, sizes, directions
     nfl = 40 if tier == "quick" else 400
     for si, s in enumerate(cat):
